@@ -278,7 +278,7 @@ def main(run, args):
                 failing.append({"what": "the old group cannot go on after a branch", "script": sc["name"], "error": r.get("err")})
     mism = []
     coq_cases = 0
-    if proofs_ok and cases:
+    if model_ready(proofs_ok) and cases:
         text = ("From Coq Require Import NArith List Bool.\nFrom MlsV Require Import Tree Subgroup.\nImport ListNotations.\nLocal Open Scope N_scope.\n"
                 "Eval vm_compute in [" + ";\n".join(c[0] for c in cases) + "].\n")
         nums, logtxt = coq_eval_cases("C17_cases", text, timeout=900)
